@@ -115,6 +115,44 @@ let () =
            protocol m (xc, rc) rc.c_it0 h k
              (fun ((xr, fa), o) -> Printf.sprintf "XR=%s FA=%s %s" (hex xr) (hex fa) (pr_rout o))
              (fun (((x, xr), vr), v) -> Printf.sprintf "x=%s extended_x=%s extended_v=%s %s" (hex x) (hex xr) (hex vr) (pr_rsaved v))
+         | "ABF" ->
+           let nd = ni () in
+           let lower = nflist nd in let width = nflist nd in
+           let nx = List.init nd (fun _ -> nz ()) in
+           let periodic = List.init nd (fun _ -> nb ()) in
+           let full = nz () in let mn = nz () in let upd = nb () in
+           let cap = nb () in let maxf = nflist nd in let same = nb () in
+           let sub = List.init nd (fun _ -> nb ()) in
+           let other = List.init nd (fun _ -> nb ()) in
+           let it0 = nz () in
+           let t = ni () in let k = ni () in
+           let h = List.init t (fun _ ->
+               let x = nflist nd in let e = nflist nd in let o = nflist nd in
+               { i_x = x; i_e = e; i_o = o; i_j = List.init nd (fun _ -> 0.0); i_boundary = false }) in
+           let nq = ni () in
+           let queries = List.init nq (fun _ -> List.init nd (fun _ -> nz ())) in
+           let rec nat_of_int n = if n <= 0 then O else S (nat_of_int (n - 1)) in
+           let c = { c_nd = nat_of_int nd; c_lower0 = lower; c_width = width; c_nx = nx; c_periodic = periodic;
+                     c_full = full; c_min = mn; c_apply = true; c_update = upd; c_cap = cap; c_maxf = maxf;
+                     c_szd = false; c_same_step = same; c_subtract = sub; c_hidej = false; c_other = other;
+                     c_scaled = false; c_sfac = (fun _ -> 1.0) } in
+           let m = abf_machine fops in
+           let h1 = take (k + 1) h and h2 = drop (k + 1) h and hb = drop k h in
+           let pp = run m c it0 h1 in
+           let f = state_file m c (fst pp) in
+           let a = go_on m c (fst pp) h2 in
+           let b = resume m c f hb in
+           let grids (cnt, sum) =
+             let cs = List.map (fun q -> string_of_int (int_of_z (cnt q))) queries in
+             let gs = List.concat (List.map (fun q ->
+                 let n = int_of_z (cnt q) in
+                 List.map (fun v -> if n > 0 then hex (v /. float_of_int n) else hex 0.0) (sum q)) queries) in
+             Printf.sprintf "CNT=%s GRAD=%s" (String.concat "," cs) (String.concat "," gs) in
+           let steps l = String.concat " ; " (List.map (fun (it, o) ->
+               Printf.sprintf "it=%d F=%s" (int_of_z it) (hexl o.o_f)) l) in
+           let st r = let s = snd (fst r) in (s.s_cnt, s.s_sum) in
+           Printf.printf "A %s %s | B %s %s | S step=%d %s\n"
+             (steps (snd a)) (grids (st a)) (steps (snd b)) (grids (st b)) (int_of_z (fst f)) (grids (snd f))
          | _ -> Printf.printf "?\n")
       end
     done
